@@ -165,6 +165,8 @@ def gen_fourier(rng, tier):
             c['kx'] = full(enc[2])
             m = rng.choice([2, 3, 4])
             c['ky'] = sorted({rng.randint(-(enc[1] // 2) * m, (enc[1] - enc[1] // 2 - 1) * m) / m for _ in range(rng.randint(2, 5))} | {0.25})
+            if len(c['ky']) < 2:      # a single-valued direction is not sampled at all (FourierOp passes it through): outside this family
+                c['ky'].append(c['ky'][0] - 0.5)
         else:
             n = rng.randint(3, 8)
             m = rng.choice([2, 4, 8])
